@@ -393,7 +393,7 @@ def check(case: t.Any, ctx: Ctx) -> None:
             if not isinstance(ys, list) or len(ys) != ndocs or any(same(y, xd) is not None for (y, xd) in zip(ys, docs)):
                 ctx.fail('yaml-all', f"docs:{ndocs}", f"{ident}; {ndocs} documents written ({short(docs, 100)}), from_yaml_all returned {short(ys, 150)}")
                 return
-            if is_cls:
+            if is_cls and not any(f.name == 'from_yaml_all' for f in nd.fields):     # (a field of that name hides the classmethod)
                 (k, ys2) = outcome(lambda: T.from_yaml_all(io.StringIO(buf.getvalue())))
                 if k != 'ok' or len(ys2) != ndocs or any(same(y, xd) is not None for (y, xd) in zip(ys2, docs)):
                     ctx.fail('yaml-all', 'classmethod', f"{ident}; Cls.from_yaml_all disagrees: {short(ys2, 150)}")
